@@ -172,6 +172,9 @@ func zzH02_call1() {
 		var k0 int
 		if full {
 			k0 = zzChoice("k0", zzPoolSize)
+			if k0 == 5 {
+				zzAssume(false) // symbolic floats: zzH02_callfloat
+			}
 		} else {
 			// quick tier: 8 of the 16 kinds (symbolic floats make every comparison a
 			// floating-point query; the remaining kinds are in the thorough tier)
@@ -358,4 +361,24 @@ func zzItoa(i int) string {
 		i /= 10
 	}
 	return s
+}
+
+// zzH02_callfloat: universe built-ins with one symbolic float argument (every comparison
+// on a symbolic float is a floating-point query of seconds, so this runs apart with a path cap).
+//
+//verif:unwind 80
+//verif:timeout 3000
+//verif:maxpaths 1500
+//verif:thorough
+func zzH02_callfloat() {
+	cs := zzCallables()
+	nb := 0
+	for _, c := range cs {
+		if _, ok := c.fn.(*Builtin); ok && c.fn.(*Builtin).Receiver() == nil {
+			nb++
+		}
+	}
+	c := cs[zzChoice("callable", nb)]
+	zzC02Call(c, []int{5}, -1)
+	zzReach("end")
 }
